@@ -476,7 +476,12 @@ def r148(db, ctx):
                                (r[0] == 'eq' and sorted([X.canon(norm(r[1])), X.canon(norm(r[2]))])[0] == cx and 'round' in X.canon(norm(r[1])) + X.canon(norm(r[2]))) for r in rels)
                 nonneg = False
                 below = False
+                # x == round(x) holds on this path, so x is not NaN: for such an x the failed test `x < c` does mean `x >= c`
+                # (the partial-order negations nlt / nle / ngt / nge of lm.guards become the total ones)
+                TOTAL = {'nlt': 'ge', 'nle': 'gt', 'ngt': 'le', 'nge': 'lt'}
                 for r in rels:
+                    if r[0] in TOTAL and integral:
+                        r = (TOTAL[r[0]],) + tuple(r[1:])
                     if r[0] not in ('ge', 'gt', 'lt', 'le'):
                         continue
                     a, b = norm(r[1]), norm(r[2])
@@ -503,6 +508,50 @@ def r148(db, ctx):
     ctx.note(f'R14.8: {nc} float->int cast(s) in lightmotif_io')
 
 
+NUMERIC_TOKEN_PARSERS = ('nom::character::complete::u8', 'nom::character::complete::u16', 'nom::character::complete::u32', 'nom::character::complete::u64',
+                         'nom::character::complete::i8', 'nom::character::complete::i16', 'nom::character::complete::i32', 'nom::character::complete::i64',
+                         'nom::number::complete::float', 'nom::number::complete::double', 'nom::number::complete::recognize_float')
+FIXED_WIDTH = ('nom::bytes::complete::take', 'nom::bytes::complete::take_while_m_n', 'nom::bytes::streaming::take')
+NUMERIC_CONVERSIONS = ('core::str::parse', 'str::parse', 'FromStr::from_str', 'from_str_radix')
+
+
+def r149(db, ctx):
+    ctx.rule('R14.9', 'numeric fields (counts, frequencies, row labels, dates, reference numbers) are read by parsers that consume the whole numeric token '
+                      '(nom u8..u64 / float): no numeric conversion is applied to the output of a fixed-width recogniser (take(n)), which would leave the '
+                      'remaining digits of a longer number in front of the next field')
+    sites = set()
+    for k, f in db.fns.items():
+        if f.crate != 'lightmotif_io' or f.promoted_of:
+            continue
+        R = None
+        for bi, t in f.calls():
+            c = f.callee_short(t) or ''
+            if c in NUMERIC_TOKEN_PARSERS:
+                sites.add((f.path, c))
+            R = R or X.Rec(f)
+            args = [norm(R.operand(a)) for a in t['args']]
+            items = [x for a in args for x in X.walk(a)]
+            for x in items:
+                if x[0] == 'fnitem' and x[1] in NUMERIC_TOKEN_PARSERS:
+                    sites.add((f.path, x[1]))
+            conv = [x for x in items if x[0] == 'fnitem' and x[1].endswith(NUMERIC_CONVERSIONS)] + ([('call', c)] if c.endswith(NUMERIC_CONVERSIONS) else [])
+            if not conv:
+                continue
+            fixed = [x for x in items if x[0] == 'call' and x[1].endswith(FIXED_WIDTH)]
+            whole = [x for x in items if (x[0] == 'fnitem' and x[1].endswith(('complete::digit1', 'complete::digit0'))) or (x[0] == 'call' and x[1].endswith('combinator::recognize'))]
+            if fixed:
+                ctx.fail('R14.9', f, 'numeric conversion of a fixed-width slice',
+                         f'{conv[0][1].rsplit("::", 1)[-1]} is applied to the output of {fixed[0][1].rsplit("::", 1)[-1]}({X.show(fixed[0][2][0], 20) if fixed[0][2] else ""}): '
+                         'a number with more digits is cut and its remaining digits are read as the next field', span=t['span'])
+            elif whole:
+                sites.add((f.path, 'digit-run + ' + conv[0][1].rsplit('::', 1)[-1]))
+            else:
+                ctx.fail('R14.9', f, 'hand-rolled numeric conversion', f'reason=unrecognised-shape: {conv[0][1]} applied to a token of unknown extent', span=t['span'])
+    for p_, c in sorted(sites):
+        ctx.ok('R14.9', p_, f'numeric field read by {c.rsplit("::", 2)[-1] if "::" in c else c}', ['consumes the whole token'])
+    ctx.floor('R14.9', len(sites), 8, 'numeric token parser sites')
+
+
 def run(db, ctx):
     from lm import panics
     roots = C15.entry_points(db)
@@ -519,3 +568,4 @@ def run(db, ctx):
     r146(db, ctx)
     r147(db, ctx, roots)
     r148(db, ctx)
+    r149(db, ctx)
